@@ -710,7 +710,12 @@ class Judge:
                     self.disc('C05', 'I-visible', op['i'], f'{loc.slug}: a directory result is published although its run failed', present=sorted(k for k in ls if k.startswith(base))[:6])
         exp = op.get('expect')
         if exp == 'unchanged' and prev is not None:
-            changed = sorted(k for k in set(prev) | set(ls) if ((k in prev) != (k in ls) or prev.get(k) != ls.get(k)) and not _is_work_path(k))
+            # kept work of unfinished resumable computations (<name>_tmp of ContinuesData tasks) is part of the directory like any result
+            cont_dirs = tuple('/'.join(c_['slug'].split(':')) + '/' for c_ in self.world['classes'] if c_['kind'] == 'cont')
+
+            def kept_work(k):
+                return bool(cont_dirs) and '_tmp/' in k and k.startswith(cont_dirs) and (prev.get(k) is not None or ls.get(k) is not None)
+            changed = sorted(k for k in set(prev) | set(ls) if ((k in prev) != (k in ls) or prev.get(k) != ls.get(k)) and (not _is_work_path(k) or kept_work(k)))
             files = [k for k in changed if prev.get(k) is not None or ls.get(k) is not None]
             dirs = [k for k in changed if k not in files]
             if files:
